@@ -276,7 +276,8 @@ fn chain(ctx: &mut Ctx, prop: &'static str) -> R {
             };
             let mut value: Vec<u8> = match name.as_str() {
                 "host" => cur.uri.authority().into_bytes(),
-                "content-length" => cur.body.len().to_string().into_bytes(),
+                // the value reaches the wire as the caller wrote it, leading zeros and all
+                "content-length" => format!("{}{}", if ctx.chance(1, 3) { "0".repeat(ctx.range(1, 4)) } else { String::new() }, cur.body.len()).into_bytes(),
                 "transfer-encoding" => b"chunked".to_vec(),
                 "connection" => b"keep-alive".to_vec(),
                 _ => format!("jar-hop{}-{}-{}", depth, i, tag).into_bytes(),
@@ -533,6 +534,18 @@ fn chain(ctx: &mut Ctx, prop: &'static str) -> R {
                 if parsed.fields.iter().any(|(n, v)| n == "content-length" && v == cl_secret.to_string().as_bytes()) && framing != Framing::None {
                     fail!("C13.content_length_leaked", "", "hop {} to {}: the original Content-Length reached the redirect target (chain: {})", depth, cur.uri.render(), trail.join(" => "));
                 }
+                // the same three clauses on the request as its accessor shows it
+                if let Some(am) = &obs.accessor_headers {
+                    let has = |name: &str, needle: &[u8]| am.iter().any(|(n, v)| n == name && crate::refs::find(v, needle).is_some());
+                    let allowed = policy_samehost && cur.uri.host.eq_ignore_ascii_case(&uri0.host) && (cur.uri.scheme == uri0.scheme || cur.uri.scheme == "https");
+                    if with_cookie && has("cookie", b"S3CR3T-COOKIE") {
+                        fail!("C13.cookie_leaked", "accessor", "hop {} to {}: headers_map() of the redirected request shows the original request's Cookie (chain: {})", depth, cur.uri.render(), trail.join(" => "));
+                    }
+                    if has("authorization", b"S3CR3T-AUTH") && !allowed {
+                        fail!("C13.authorization_leaked", "accessor", "hop {} to {}: headers_map() of the redirected request shows the original Authorization with policy {:?} (chain: {})", depth, cur.uri.render(), policy, trail.join(" => "));
+                    }
+                    ctx.count("p:accessor_view_checked");
+                }
                 let auth_present = field_has(&parsed, "authorization", b"S3CR3T-AUTH");
                 let allowed = policy_samehost && cur.uri.host.eq_ignore_ascii_case(&uri0.host) && (cur.uri.scheme == uri0.scheme || cur.uri.scheme == "https");
                 if auth_present && !allowed {
@@ -699,6 +712,11 @@ fn chain(ctx: &mut Ctx, prop: &'static str) -> R {
                     fail!("FOREIGN", "", "not followed although the table allows it");
                 }
                 ctx.count("p:redirect_not_followed");
+                // asking again is permitted and must give an answer again (C14: never a panic)
+                let again = lib("repeat_Flow<Redirect>::as_new_flow", || red.as_new_flow(policy).map(|o| o.is_some()));
+                if prop == "C15" && matches!(again, Ok(true)) {
+                    fail!("C15.followed_forbidden", "second-call", "a {} for {} was not followed at first but is followed when asked again", status, cur.method);
+                }
                 ctx.nontrivial = true;
                 break;
             }
